@@ -5,7 +5,7 @@
 From Coq Require Import List NArith Bool.
 From FS Require Import Sx Model.Path Model.Stat Model.Validator Model.Hardlinks Model.Diff Model.AbsDest
   Model.Codec Model.MetaBuffer Model.Listing Model.Converge Model.ConvergeA Model.MetaOnly Model.MetaTransfer
-  Proofs.ValidatorP Proofs.MetaOnlyP Proofs.MetaRewriteP Proofs.MetaAcceptP Proofs.MetaTransferP.
+  Proofs.ValidatorP Proofs.MetaOnlyP Proofs.MetaRewriteP Proofs.MetaAcceptP Proofs.MetaTransferP Proofs.MetaLinksP.
 From FS Require Proofs.ConvergeP Proofs.ReceiveP.
 From FSGen Require FromSource.
 Import ListNotations.
@@ -188,6 +188,26 @@ Theorem receiver_accepts_wf : forall L,
   valid_stream (recv_stream L).
 Proof. exact receiver_accepts_wf_proof. Qed.
 
+(* ... and its hard-link validator accepts the stream of every canonical source listing (what the
+   walk produces: C01 walk_views_are_wf), before and after the skip of the listing-name entry ... *)
+Theorem canon_hardlink_check : forall B,
+  sorted (map fst B) -> links_canon B -> hardlink_check (map fst B) = None.
+Proof. exact canon_hardlink_check_proof. Qed.
+
+Theorem canon_recv_hardlink_check : forall B,
+  sorted (map fst B) -> links_canon B -> listing_dependents (map fst B) = false ->
+  hardlink_check (recv_stream (map fst B)) = None.
+Proof. exact canon_recv_hardlink_check_proof. Qed.
+
+(* ... so that for a well-formed source "the receiver accepts" - the hypothesis of
+   meta_transfer_converges / meta_req_ids / projection_wf / forwarded_valid - is exactly
+   "the selection is link-closed": a condition on the selector alone *)
+Theorem wf_source_accepts_iff : forall sel B,
+  wf_entries B -> (forall s, In s (map fst B) -> ok_path (st_path s) = true) ->
+  listing_dependents (map fst B) = false ->
+  (recv_accepts sel (map fst B) = true <-> link_closed sel (recv_stream (map fst B)) = true).
+Proof. exact wf_source_accepts_iff_proof. Qed.
+
 (* ... (2) the bytes delivered under a registered id are those of that entry of the projection
    (ids are positions in the announced sequence: ids_aligned) ... *)
 Theorem registered_content : forall sel B p id,
@@ -288,6 +308,9 @@ Print Assumptions listing_roundtrip_any_order.
 Print Assumptions buffers_agree.
 Print Assumptions projection_is_forwarded.
 Print Assumptions receiver_accepts_wf.
+Print Assumptions canon_hardlink_check.
+Print Assumptions canon_recv_hardlink_check.
+Print Assumptions wf_source_accepts_iff.
 Print Assumptions registered_content.
 Print Assumptions projection_wf.
 Print Assumptions meta_transfer_converges.
@@ -405,6 +428,21 @@ Proof.
   split; [vm_compute; reflexivity|]. split; [vm_compute; reflexivity|].
   split; [apply ReceiveP.identity_faithful_b_sound; vm_compute; reflexivity|].
   vm_compute. split; reflexivity.
+Qed.
+
+(* the hypotheses of wf_source_accepts_iff hold of ex_B (which has a hard link a/d/a), and both sides
+   of the equivalence occur: ex_sel2 is link-closed and accepted, the selection of the link alone is
+   neither *)
+Example ex_wf_source_accepts :
+  wf_entries ex_B /\ forallb (fun s => ok_path (st_path s)) (map fst ex_B) = true
+  /\ listing_dependents (map fst ex_B) = false
+  /\ existsb is_hardlink (map fst ex_B) = true
+  /\ link_closed ex_sel2 (recv_stream (map fst ex_B)) = true /\ recv_accepts ex_sel2 (map fst ex_B) = true
+  /\ (let only_link := fun s : stat => is_hardlink s in
+      link_closed only_link (recv_stream (map fst ex_B)) = false /\ recv_accepts only_link (map fst ex_B) = false).
+Proof.
+  split; [apply ConvergeP.wf_entries_b_sound; vm_compute; reflexivity|].
+  vm_compute. repeat split; reflexivity.
 Qed.
 
 (* projection = a, a/b, a/b/c, a/d, a/d/a, b; the stale listing and a/b/d are gone, a/c never
